@@ -66,6 +66,13 @@ def classify(c, where):
     return "loss:" + where
 
 
+def script_lost(c):
+    """An attempt of a `script:` step did not get to run its child: teardown removes Node.scriptFile, which after a
+    retry is the NEXT attempt's script when the stale worker is late (F12b)."""
+    return (c["script"] and n_attempts(c) >= 2 and not c.get("hang") and not c.get("err")
+            and 0 < (c.get("attempts") or 0) < n_attempts(c))
+
+
 def monitor(c):
     """None or (what, cls)."""
     if c.get("err"):
@@ -77,7 +84,10 @@ def monitor(c):
     so, se = sizes(c)
     last = n_attempts(c) - 1
     if c.get("attempts") != last + 1:
-        return ("the child ran %s times, expected %d attempts" % (c.get("attempts"), last + 1), dict(base, **{"class": "attempts"}))
+        cl = "attempts"
+        if script_lost(c):
+            cl = "retry-stale-teardown"   # the stale teardown removed the script file of the attempt that followed
+        return ("the child ran %s times, expected %d attempts" % (c.get("attempts"), last + 1), dict(base, **{"class": cl}))
     lo, le = runs(c["log"], "out"), runs(c["log"], "err")
     if not has_full(lo, last, so) or (not c["stderr"] and not has_full(le, last, se)):
         return ("State.Log lacks bytes of the last attempt: stdout runs %r of %d, stderr runs %r of %d" % (lo, so, le, 0 if c["stderr"] else se),
@@ -101,7 +111,9 @@ def model_blk(c, aligned=False):
         return 32768
     b = c["blk"] if c["blk"] > 0 else max(c["size"], 1)
     if c["size"] > 131072:
-        b = 32768     # how a large stream is chunked is not observable; fine chunks only make the evaluation quadratic
+        # how a large stream is chunked is not observable (and, by C12_complete_partial, irrelevant where nothing is
+        # lost); many small chunks only make the evaluation quadratic (file ++ chunk)
+        return max(32768, c["size"] // 4)
     return max(1, min(b, 32768))
 
 
@@ -253,6 +265,11 @@ def model_check(ctx, cases):
     variants, owner = [], []
     for i, c in enumerate(cases):
         if c.get("err"):
+            continue
+        if script_lost(c):
+            # the child indices no longer line up with the attempts; the script file is not part of the model
+            c["_stale"] = True
+            ctx.cov["script_removed_by_stale_teardown"] = ctx.cov.get("script_removed_by_stale_teardown", 0) + 1
             continue
         na = n_attempts(c)
         variants.append((c, [0] * (na - 1), False))
@@ -429,7 +446,9 @@ def run(ctx, replay_cases=None):
         "after a write error on a closed file the model drops the rest of the stream (what exec.Cmd does next is not modelled)",
     ]
     ctx.assumptions = ["C12_complete_partial: one attempt (no retry happened) and (output unset or at most 32768 bytes towards the capture pipe)",
-                       "C12_complete_noretry_multi / C12_retry_direct: see Props/C12.v for the premises of the further partial theorems"]
+                       "C12_complete_retry_direct_partial: any number of attempts, but neither `stdout:` nor `output:` configured and every stale "
+                       "worker tears down before the next attempt is set up",
+                       "C12_capture_partial: output set, one attempt, at most 32768 bytes"]
     if ctx.tier == "thorough":
         ctx.coqchk()
 
